@@ -130,12 +130,14 @@ class RefParty:
         if force_child_proto is not None:
             pr = dict(pr, proto=force_child_proto)
         if force_ts is not None:
-            tsi, tsr = {'selectors': [force_ts[0]]}, {'selectors': [force_ts[1]]}
+            # one selector per payload, or a list of them
+            tsi = {'selectors': list(force_ts[0]) if isinstance(force_ts[0], list) else [force_ts[0]]}
+            tsr = {'selectors': list(force_ts[1]) if isinstance(force_ts[1], list) else [force_ts[1]]}
         pls = [{'type': codec.IDR, 'critical': False, 'idtype': idtype, 'data': iddata},
                {'type': codec.AUTH, 'critical': False, 'method': auth_method, 'data': auth_data},
                {'type': codec.SA, 'critical': False, 'proposals': [{'num': pr['num'], 'proto': pr['proto'], 'spi': self.child_spi, 'transforms': chosen}]},
-               {'type': codec.TSI, 'critical': False, 'selectors': [tsi['selectors'][-1]]},
-               {'type': codec.TSR, 'critical': False, 'selectors': [tsr['selectors'][-1]]}]
+               {'type': codec.TSI, 'critical': False, 'selectors': tsi['selectors'] if force_ts is not None else [tsi['selectors'][-1]]},
+               {'type': codec.TSR, 'critical': False, 'selectors': tsr['selectors'] if force_ts is not None else [tsr['selectors'][-1]]}]
         if transport if mode_transport is None else mode_transport:
             pls.append({'type': codec.NOTIFY, 'critical': False, 'proto': 0, 'spi': b'', 'ntype': 16391, 'data': b''})
         return self.seal(35, hdr['mid'], pls, response=True)
